@@ -14,6 +14,11 @@ SPEC = dict(
          'against an inode/byte-array model; 1 op in 6 runs under a libc failpoint (open/write/short write/read/lseek/rename/unlink/sendfile/short sendfile: ENOSPC, EIO, EACCES); '
          'after every operation the content of every name is read back through libc and compared, the directory listing must contain no name the model does not have, handle offsets '
          'and sizes are compared with the kernel. non-trivial = at least one successful rename/copy and one failing operation. '
+         'files-alias: the same histories and oracles, but every path argument of open/readAll/exists/unlink/rename/copy is given (3 times in 4) in one of 8 spellings of the same '
+         'directory entry: plain, "./" or "/./" component, d/../name, dir//name, absolute instead of relative (and vice versa), through a symbolic link to the case directory, '
+         'through a symbolic link d/up -> "..", dir/../dir/name; source and destination of rename may be two spellings of one entry (classes existing-/missing-alias-of-dst); every '
+         'case ends with 12 forced failing calls (rename x3, copy, unlink, exists, readAll, open without create) whose source is a missing name, both arguments in different spellings, the '
+         'destination of rename being the same entry in half of them: result false, nothing new in the listing, contents per model. non-trivial additionally = a failing call with an aliased path. '
          'trees: case = random forest (sentinel directory outside/, sibling tree sib/, tree/ of depth <= 4 with files, FIFOs, hard links and symbolic links to outside files/directories, to '
          'the sibling, dangling, to ".", ".." and to themselves) and 3..9 Directory::create / Directory::unlink calls over path classes; a recursive libc snapshot (names, types, sizes, '
          'content hashes, link targets) of the whole case root is taken before and after every call: create returns true iff stat says directory afterwards (and must succeed when all '
@@ -33,12 +38,19 @@ SPEC = dict(
         job('paths-rel', 'h_fs', 'paths-rel', sources=_SRC, cases=-1, scale={Q: 3, T: 4}, procs=16),
         job('paths-rand', 'h_fs', 'paths-rand', sources=_SRC, cases={Q: 40000, T: 1500000}, procs=16),
         job('files', 'h_fs', 'files', sources=_SRC, cases={Q: 2400, T: 100000}, procs=16),
+        job('files-alias', 'h_fs', 'files-alias', sources=_SRC, cases={Q: 1600, T: 60000}, procs=16),
         job('trees', 'h_fs', 'trees', sources=_SRC, cases={Q: 960, T: 40000}, procs=16),
     ],
     floors={Q: dict(path_inputs=500000, cmp_relative=100000, rel_answers=50000, ops=100000, bytes_compared=100000000, ops_with_injected_failure=5000, trees_removed=800,
                     symlinks_inside_removed_trees=1000, snapshot_entries_compared=80000, create_true=1000, create_false=500,
-                    **{'set:create_classes': 9, 'set:unlink_classes': 8, 'set:injected_functions': 8, 'set:rel_classes': 8}),
+                    aliased_path_arguments=20000, failing_calls_with_aliased_path=10000, sweep_ops=15000, rename_missing_source_alias_of_dst_failIfExists=1500,
+                    rename_missing_source_alias_of_dst_replace=400, rename_existing_source_alias_of_dst=300,
+                    **{'set:create_classes': 9, 'set:unlink_classes': 8, 'set:injected_functions': 8, 'set:rel_classes': 8, 'set:alias_spellings': 7,
+                       'set:rename_missing_alias_pairs': 56, 'set:rename_existing_alias_pairs': 40}),
             T: dict(path_inputs=10000000, cmp_relative=3000000, rel_answers=1500000, ops=2500000, bytes_compared=2000000000, ops_with_injected_failure=120000, trees_removed=20000,
                     symlinks_inside_removed_trees=25000, snapshot_entries_compared=2000000, create_true=25000, create_false=12000,
-                    **{'set:create_classes': 9, 'set:unlink_classes': 8, 'set:injected_functions': 8, 'set:rel_classes': 8})},
+                    aliased_path_arguments=800000, failing_calls_with_aliased_path=400000, sweep_ops=600000, rename_missing_source_alias_of_dst_failIfExists=60000,
+                    rename_missing_source_alias_of_dst_replace=15000, rename_existing_source_alias_of_dst=12000,
+                    **{'set:create_classes': 9, 'set:unlink_classes': 8, 'set:injected_functions': 8, 'set:rel_classes': 8, 'set:alias_spellings': 7,
+                       'set:rename_missing_alias_pairs': 56, 'set:rename_existing_alias_pairs': 56})},
 )
